@@ -51,7 +51,7 @@ def main(run):
                   "phase": "detect and build"}
     run.assumptions = ["free-form TOML tables are tracked by identity (their inner structure is the toml crate's business)", "file names: non-empty, no '/' or NUL, pairwise distinct",
                        "toml text layer abstracted"]
-    run.outside = ["non-UTF-8 file *names* (OsString beyond strings)", "I/O errors other than the modelled kinds", "custom Platform/Metadata types of a buildpack"]
+    run.outside = ["non-UTF-8 file *names* (OsString beyond strings)", "non-UTF-8 *values* of CNB_TARGET_* and other process environment variables (env values are Rust strings in the model; seed C06-3 lives there)", "I/O errors other than the modelled kinds", "custom Platform/Metadata types of a buildpack"]
     P = run.program(CRATES)
     summ_core.install(P)
     summ_coll.install(P)
